@@ -52,6 +52,8 @@ def report_case(draw):
             "header": draw(st.sampled_from([None, "plain", "caf\xe9 latin", "quote'd \"x\"", "a: b, c", "c1 \x80 and \x9f end", "back\\slash \xff"])),
             "example": draw(st.sampled_from([None, "it's", "a b&c=d", "50%", "é✓", "#frag?"])),
             "drop": draw(st.integers(0, 9)) == 0,
+            # the name of the query parameter travels into the cassette's coverage metadata
+            "param": draw(st.sampled_from(["q", "q", "user's id", "k: v", "# x", 'q"uote', "back\\slash", "it's: #1"])),
         })
     return {
         "ops": ops,
@@ -68,9 +70,12 @@ def report_case(draw):
 def build_doc(inp) -> dict:
     paths = {}
     for op in inp["ops"]:
-        q = {"name": "q", "in": "query", "schema": {"type": "string"}}
+        q = {"name": op.get("param", "q"), "in": "query", "schema": {"type": "string"}}
         if op["example"] is not None:
             q["example"] = op["example"]
+        elif op.get("param", "q") != "q":
+            # a bounded integer gets boundary cases, so the coverage metadata names this parameter
+            q["schema"] = {"type": "integer", "minimum": 1, "maximum": 9}
         paths[op["path"] + "/{seg}"] = {"get": {"parameters": [q, {"name": "seg", "in": "path", "required": True, "schema": {"type": "string", "enum": ["plain", "it's", "a b"]}}], "responses": {"200": {"description": "ok"}}}}
     if inp["links"]:
         paths["/c"] = {"post": {"operationId": "c", "requestBody": {"required": True, "content": {"application/json": {"schema": {"type": "object", "properties": {"n": {"type": "integer"}}, "required": ["n"]}}}},
@@ -166,6 +171,39 @@ def check_reports(ctx: Ctx, inp) -> None:
             with_response = [i for i in inter if i.get("response") is not None]
             ids = [i["id"] for i in with_response]
             _compare_ids(ctx, "vcr", ids, expected_ids, inp)
+            # "together with its check results": the only enabled check is not_a_server_error
+            dropped_ids = {r.header("X-Schemathesis-TestCaseId") for r in dropped}
+            for i in inter:
+                checks = i.get("checks") or []
+                if i.get("response") is None:
+                    ctx.classes["vcr-entry-without-response"] += 1
+                    if checks or i.get("status") not in ("ERROR",):
+                        ctx.disagree("vcr:entry-without-a-response-carries-check-results", f"interaction {i['id']} has no response but status {i.get('status')!r} and checks {[(c.get('name'), c.get('status')) for c in checks]}", input=inp)
+                    continue
+                if i["id"] in dropped_ids:
+                    continue
+                code = int(i["response"]["status"]["code"])
+                names = [c.get("name") for c in checks]
+                if not checks and i.get("status") == "SKIP":
+                    continue  # documented: check recording may be skipped for an already known failure
+                want = "FAILURE" if code >= 500 else "SUCCESS"
+                got = [c.get("status") for c in checks if c.get("name") == "not_a_server_error"]
+                overall = "FAILURE" if any(c.get("status") == "FAILURE" for c in checks) else "SUCCESS"  # other checks (unsupported_method) are added by the coverage phase itself
+                phase_name = str((i.get("phase") or {}).get("name") or "").lower() if isinstance(i.get("phase"), dict) else ""
+                # the stateful phase deliberately neither records nor raises a failure it has already reported in this run
+                # (is_seen_in_suite / is_seen_in_run), so there an entry may lack the failing check: only consistency is asked
+                # (the cassette names both fuzzing and stateful cases `generate`, so the weaker rule applies to all of them when the stateful phase ran)
+                complete = got == [want] or ("stateful" in inp["phases"] and phase_name == "generate" and got == [] and want == "FAILURE")
+                if not complete or i.get("status") != overall or (got and got != [want]):
+                    ctx.disagree("vcr:check-results-differ-from-the-response", f"interaction {i['id']} ({phase_name}) answered {code}: status {i.get('status')!r}, checks {list(zip(names, [c.get('status') for c in checks]))}; expected not_a_server_error {want}", input=inp)
+            # coverage metadata names the parameter as documented
+            documented_params = {op.get("param", "q") for op in inp["ops"]} | {"seg", "id", "application/json"}
+            for i in inter:
+                data = ((i.get("phase") or {}).get("data") or {}) if isinstance(i.get("phase"), dict) else {}
+                if isinstance(data, dict) and data.get("parameter") is not None:
+                    ctx.classes["vcr-coverage-entry-with-parameter"] += 1
+                    if data["parameter"] not in documented_params:
+                        ctx.disagree("vcr:coverage-metadata-names-an-undocumented-parameter", f"{data['parameter']!r} not in {sorted(documented_params)}", input=inp)
             for i in with_response:
                 req = by_id.get(i["id"])
                 if req is None:
@@ -297,11 +335,6 @@ def _is_plain(body: str) -> bool:
 
 
 def _yaml_cause(inp, exc) -> str:
-    text = str(exc)
-    if any("'" in (op["example"] or "") for op in inp["ops"]) or True:
-        # the only single-quoted scalar that carries request data is `uri:` - a quote in the path breaks it
-        if "uri" in text or "expected <block end>" in text or "while parsing a block mapping" in text:
-            return ":single-quoted-uri-with-an-apostrophe-in-the-path"
     return ""
 
 
